@@ -43,6 +43,7 @@ type Proc struct {
 	staleVictimAt map[string]string
 	readSinceTry  bool
 	lastRead      string
+	Cancelled     bool // SIGTERM was sent while it was waiting for the lock
 }
 
 type Sched struct {
@@ -274,6 +275,7 @@ func (s *Sched) kill(p *Proc) {
 }
 
 type LockVerdict struct {
+	Cancels        int
 	Violation      string
 	What           string
 	Trace          []string
@@ -285,7 +287,7 @@ type LockVerdict struct {
 }
 
 // RunLockSchedule runs one randomly scheduled contention scenario.
-func RunLockSchedule(r *rng.R, dir, probe string, nprocs int, preExisting string, killProb int) LockVerdict {
+func RunLockSchedule(r *rng.R, dir, probe string, nprocs int, preExisting string, killProb, cancelProb int) LockVerdict {
 	var v LockVerdict
 	root := filepath.Join(dir, "root")
 	ws := filepath.Join(dir, "ws")
@@ -350,6 +352,19 @@ func RunLockSchedule(r *rng.R, dir, probe string, nprocs int, preExisting string
 			v.Trace = append(s.Trace, "=> "+v.What)
 			return v
 		}
+		// while a live process is inside the critical section the lock file names it (unless one
+		// of the hook-visible removals of a live contender's lock happened: those are judged by
+		// their consequences, with their cause attached)
+		if len(holders) == 1 && len(s.Causes) == 0 {
+			h := s.procs[holders[0]]
+			b, err := os.ReadFile(lockFile)
+			if c := strings.TrimSpace(string(b)); err != nil || c != fmt.Sprint(h.cmd.Process.Pid) {
+				v.Violation = "holder-lock-file-gone cause=removal-outside-the-stale-lock-path"
+				v.What = fmt.Sprintf("%s is inside the critical section but the lock file is %s (content %q); no stale-lock removal of a live contender's file was observed", h.ID, map[bool]string{true: "missing", false: "someone else's"}[err != nil], c)
+				v.Trace = append(s.Trace, "=> "+v.What)
+				return v
+			}
+		}
 		if len(enabled) == 0 {
 			break
 		}
@@ -389,6 +404,16 @@ func RunLockSchedule(r *rng.R, dir, probe string, nprocs int, preExisting string
 			v.Trace = s.Trace
 			return v
 		}
+		if v.Cancels == 0 && cancelProb > 0 && len(holders) == 1 && !p.InCS && !p.Cancelled && r.Chance(cancelProb, 100) &&
+			(p.Point == "lock.wait" || p.Point == "lock.read" || p.Point == "lock.probe" || p.Point == "lock.try") {
+			// the user interrupts a build that is waiting for the lock
+			s.Trace = append(s.Trace, p.ID+":SIGTERM-at-"+p.Point)
+			p.Cancelled = true
+			_ = p.cmd.Process.Signal(syscall.SIGTERM)
+			time.Sleep(20 * time.Millisecond) // let the probe's signal goroutine cancel the context
+			v.Cancels++
+			continue
+		}
 		if v.Kills == 0 && killProb > 0 && r.Chance(killProb, 100) && p.Point != "probe.done" {
 			s.kill(p)
 			v.Kills++
@@ -407,6 +432,9 @@ func RunLockSchedule(r *rng.R, dir, probe string, nprocs int, preExisting string
 		if p.State != "exited" {
 			v.Inconclusive = "schedule budget exhausted: " + s.states()
 			return v
+		}
+		if p.Cancelled && p.Entered == 0 && p.Code == 3 {
+			continue // gave up waiting, as asked
 		}
 		if p.Entered == 1 && p.Code == 4 {
 			v.Violation = "unlock-failed cause=" + s.causes()
